@@ -526,7 +526,7 @@ def check_C11(ctx):
             ctx.violation('apply-crash', 'apply_macros crashed / hung: ' + raw[:300], {'source': text, 'passes': b})
             continue
         per.setdefault(text, {})[b] = (parse_toks(f['toks']), [e[0] for e in parse_perrs(f['errs'])])
-    for text, d in per.items():
+    for text, d in list(per.items()):
         bs = sorted(d)
         # rewrites needed = first budget whose result equals the result of the next budget and has no error
         for i, b in enumerate(bs):
@@ -546,6 +546,32 @@ def check_C11(ctx):
         if any(P['MACRO_APPLY_REACHED_MAX_PASSES'] in d[b][1] for b in bs):
             ctx.nontrivial(text)
         ctx.dist('flagged' if any(P['MACRO_APPLY_REACHED_MAX_PASSES'] in d[b][1] for b in bs) else 'finished')
+    # all pass budgets: terminating macro sets with budgets at the edges of the parameter's type (unsigned 32 bit) and of int;
+    # a budget larger than the number of rewrites needed gives the fixed point without an error
+    fin = []
+    for defs, uses in TEMP_MACROS:
+        for u in uses[:2]:
+            fin.append(defs + u)
+    fin.append('DEFINE a AS b END DEFINE\nDEFINE b AS c END DEFINE\na ; a ; b')
+    bigb = [64, 65535, 65536, 2147483647, 2147483648, 3000000000, 4294967295]
+    for text, b, f, raw in apply_trace(ctx, fin, [40] + bigb):
+        ctx.cov['evaluations'] += 1
+        if f is None:
+            ctx.violation('apply-crash', 'apply_macros crashed / hung: ' + raw[:300], {'source': text, 'passes': b})
+            continue
+        per.setdefault('big:' + text, {})[b] = (parse_toks(f['toks']), [e[0] for e in parse_perrs(f['errs'])])
+    for key, d in per.items():
+        if not key.startswith('big:') or 40 not in d:
+            continue
+        ref = d[40]
+        if P['MACRO_APPLY_REACHED_MAX_PASSES'] in ref[1]:
+            continue
+        for b in bigb:
+            if b in d and d[b] != ref:
+                ctx.violation('budget-edge', 'with pass budget %d the expansion differs from the fixed point reached with budget 40 (tokens %s, errors %s)' % (
+                    b, 'differ' if d[b][0] != ref[0] else 'equal', d[b][1]), {'source': key[4:], 'passes': b})
+                break
+        ctx.nontrivial(key)
     # rewrites ≤ budget: the model reports its count; the implementation's count is read off the per-budget streams
     # an unfinished expansion is not passed on: whole compilation with a self-reproducing macro
     outs = impl(ctx, ['GEN ' + files_req(b'm', {b'm': t.encode()}) for t in texts[:3]], timeout=120)
